@@ -85,7 +85,7 @@ CHECKS = {
     level="model_checking", ref="DESIGN.md §4 C18",
     technique="TLA+ spec Catalogue (over EmuFull + committed event tables): witness contexts by TLC reachability, verdict for every code of the 8 x 94 x 94 code space, Decode of description templates; probes and decodings replayed on ovnievents / ovniemu / ovnidump",
     text="TLC finds for each of the 348 listed events the shortest history after which it is accepted, evaluates the reference semantics on all 70,688 printable three-character codes plus the single-bit changes and bit-7 images of every listed code (thorough: all 397,832 codes with bytes 33..255) (invariant: rejected exactly when neither listed nor excepted) and computes the expected ovnidump text for argument vectors (integers over the whole range of each type, labels incl. UTF-8 bytes); ovnievents output is compared with the committed table in both directions, every listed event is replayed in its witness context (and once more with the thread switched out by the kernel model), unlisted codes are probed (quick: neighbourhood + sample + payload-shaped probes; thorough: the whole space) and decodings compared, per model and in traces that mix all models so that codes differing in the model byte only are neighbours; unlisted, not excepted codes are dumped as well and must get no description.",
-    note="The table is committed data; printf formatting is reproduced for the conversions the catalogue uses."),
+    note="The table is committed data; printf formatting is reproduced for the conversions the catalogue uses. Unlisted codes are probed in the running context and again after the thread has ended (OHx OHe <code>), where the base model still processes OF[ OF]."),
  "C20": dict(
     level="model_checking", ref="DESIGN.md §4 C20",
     technique="TLA+ specs SortOps/SortMod (sort_replace as written vs sorted-multiset property, only-changed-rows written) and Breakdown/BreakdownMC (tri rule + mux selection memory) checked by TLC; exported sequences replayed in-process on sort.c (drivers/sortharness) and histories replayed with ovniemu -b, validated by BreakdownTrace.tla",
